@@ -45,6 +45,15 @@ Section Alg.
        a_lw := oapp (a_lw a) (a_lw b); a_w := oapp (a_w a) (a_w b);
        a_beta := None; a_le := None; a_lee := None |}.
 
+  (* ... and what every piece carries as a whole (temperature, attached evidence) is carried by the union when the pieces agree
+     (repair F64); veqb decides equality of the carried values *)
+  Definition ocarry (veqb : V -> V -> bool) (a b : option V) : option V :=
+    match a, b with Some u, Some v => if veqb u v then Some u else None | _, _ => None end.
+  Definition concat2c (veqb : V -> V -> bool) (a b : sset) : sset :=
+    let r := concat2 a b in
+    {| a_x := a_x r; a_ll := a_ll r; a_lp := a_lp r; a_lq := a_lq r; a_lw := a_lw r; a_w := a_w r;
+       a_beta := ocarry veqb (a_beta a) (a_beta b); a_le := ocarry veqb (a_le a) (a_le b); a_lee := ocarry veqb (a_lee a) (a_lee b) |}.
+
   Fixpoint concat (l : list sset) (first : sset) : sset :=
     match l with [] => first | s :: r => concat r (concat2 first s) end.
 
